@@ -60,9 +60,10 @@ type RunConfig struct {
 	Straggler        int     `json:"straggler"`
 	Synthetic        bool    `json:"synthetic"`
 	PJoinerBadger    float64 `json:"p_joiner_badger,omitempty"`
-	Prepared         bool    `json:"prepared,omitempty"`    // the nodes bootstrap from a database holding a synthetic (deep-election) history, then the fair suffix runs
-	LowerKeys        bool    `json:"lower_keys,omitempty"`  // the peers files spell some validators' keys in lower case with a 0x prefix
-	LeaveFirst       bool    `json:"leave_first,omitempty"` // a validator leaves early; joins and re-fast-forwards come after its removal
+	Prepared         bool    `json:"prepared,omitempty"`      // the nodes bootstrap from a database holding a synthetic (deep-election) history, then the fair suffix runs
+	BackwardReFF     bool    `json:"backward_reff,omitempty"` // an up-to-date node may re-fast-forward to an anchor below its own last block
+	LowerKeys        bool    `json:"lower_keys,omitempty"`    // the peers files spell some validators' keys in lower case with a 0x prefix
+	LeaveFirst       bool    `json:"leave_first,omitempty"`   // a validator leaves early; joins and re-fast-forwards come after its removal
 	PAppError        float64 `json:"p_app_error,omitempty"`
 	StragglerP       float64 `json:"straggler_p"`
 	Variants         int     `json:"variants"`
